@@ -11,7 +11,10 @@ ops (one output line each):
   cert FF s h <declared> <agg>
   cert F  s   <declared> <agg>
 payload := N s h | NF s h | S s | SF s | F s
-parts   := <count> (<key> <payload>)*
+parts   := <count> (<key> <payload>)*      a key >= 1000000 stands for a point of E(Fp) outside the prime-order
+                                           subgroup (no validator has such a key): inside an aggregate it makes the
+                                           verification fail like any foreign part; a vote signature containing one is
+                                           rejected by the decoder (`IndividualSignature::read` checks subgroup membership)
 agg     := A <numBits> <nwords> w.. <parts>        optagg := - | agg
 -/
 open AgModel.Cert Driver
@@ -46,6 +49,9 @@ def pAgg : List String → Option (Option Agg) × List String
     | none => (some none, r)
     | some bits => (some (some ⟨ps, bits⟩), r)
   | r => (none, r)
+
+/-- key ids from here on denote points outside G1 (harness constant `TORSION`) -/
+def offSubgroupKey : Nat := 1000000
 
 def showV : Outcome VoteErr → String
   | .ok => "ok"
@@ -87,8 +93,8 @@ def step (e : Epoch) (ws : List String) : Epoch × List String :=
     match r with
     | signer :: r =>
       let (ps, _) := pParts r
-      -- `IndividualSignature::read`: the identity point is rejected by the decoder
-      if ps.isEmpty then (e, ["decode-err"])
+      -- `IndividualSignature::read`: the identity point and points outside the subgroup are rejected by the decoder
+      if ps.isEmpty || ps.any (fun p => decide (p.key ≥ offSubgroupKey)) then (e, ["decode-err"])
       else (e, [showV (validateVote e ⟨p, ps, nat! signer⟩)])
     | [] => (e, ["bad-op"])
   | "cert" :: ty :: r =>
